@@ -12,71 +12,8 @@ namespace PM.Img
 open PM PM.PyOps PM.Spec
 set_option Elab.async false
 
-/-! ### filings after an insertion (any object id, fresh or not) -/
-
-theorem mem_entries_archAdd {v a : Str} {id : Nat} {img : Image} {as : List (Str × Cell)} {e : Str × Str × Nat × Image} :
-    e ∈ archEntriesId v (archAdd as a id img) → e = (v, a, id, img) ∨ e ∈ archEntriesId v as := by
-  induction as with
-  | nil =>
-    intro h
-    simp [archAdd, archEntriesId] at h
-    exact Or.inl h
-  | cons ac rest ih =>
-    obtain ⟨a', c⟩ := ac
-    unfold archAdd
-    split
-    · rename_i heq
-      have ha : a' = a := by simpa using heq
-      subst ha
-      intro h
-      rw [archEntriesId_cons] at h
-      rw [archEntriesId_cons]
-      rcases List.mem_append.mp h with h | h
-      · obtain ⟨y, hy, rfl⟩ := List.mem_map.mp h
-        rcases mem_cellAdd hy with e' | e'
-        · exact Or.inl (by rw [e'])
-        · exact Or.inr (List.mem_append_left _ (List.mem_map.mpr ⟨y, e', rfl⟩))
-      · exact Or.inr (List.mem_append_right _ h)
-    · intro h
-      rw [archEntriesId_cons] at h
-      rw [archEntriesId_cons]
-      rcases List.mem_append.mp h with h | h
-      · exact Or.inr (List.mem_append_left _ h)
-      · rcases ih h with e' | e'
-        · exact Or.inl e'
-        · exact Or.inr (List.mem_append_right _ e')
-
-/-- nothing but the new filing appears -/
-theorem mem_entries_cellsAdd {v a : Str} {id : Nat} {img : Image} {cs : Cells} {e : Str × Str × Nat × Image} :
-    e ∈ entries (cellsAdd cs v a id img) → e = (v, a, id, img) ∨ e ∈ entries cs := by
-  induction cs with
-  | nil =>
-    intro h
-    simp [cellsAdd, entries] at h
-    exact Or.inl h
-  | cons va rest ih =>
-    obtain ⟨v', as⟩ := va
-    unfold cellsAdd
-    split
-    · rename_i heq
-      have hv : v' = v := by simpa using heq
-      subst hv
-      intro h
-      rw [entries_cons] at h
-      rw [entries_cons]
-      rcases List.mem_append.mp h with h | h
-      · rcases mem_entries_archAdd h with e' | e'
-        · exact Or.inl e'
-        · exact Or.inr (List.mem_append_left _ e')
-      · exact Or.inr (List.mem_append_right _ h)
-    · intro h
-      rw [entries_cons] at h
-      rw [entries_cons]
-      rcases List.mem_append.mp h with h | h
-      · exact Or.inr (List.mem_append_left _ h)
-      · rcases ih h with e' | e'
-        · exact Or.inl e'
-        · exact Or.inr (List.mem_append_right _ e')
+/- `mem_entries_archAdd` / `mem_entries_cellsAdd` (nothing but the new filing appears, for any object id) are in
+   Proofs/ImagesLoadExact.lean. -/
 
 /-! ### the invariant of the reader's loops -/
 
